@@ -94,6 +94,18 @@ use crate::types::{Command, CommandLine};
 thread_local! {
     static PIPE_SCRIPT: RefCell<Option<HashMap<String, String>>> = RefCell::new(None);
     static PIPE_LOG: RefCell<Vec<String>> = RefCell::new(Vec::new());
+    static PIPE_ENVS: RefCell<Vec<Vec<(String, String)>>> = RefCell::new(Vec::new());
+}
+
+/// the per-command environments (`NAME=v cmd`) of the scripted pipelines run so far
+pub fn take_pipeline_envs() -> Vec<Vec<(String, String)>> {
+    PIPE_ENVS.with(|t| std::mem::take(&mut *t.borrow_mut()))
+}
+
+/// `execute::run_command_line` with the real `run_proc` (scripted `run_pipeline` if installed)
+pub fn run_command_line(sh: &mut Shell, line: &str) -> i32 {
+    crate::execute::run_command_line(sh, line, false, false);
+    sh.previous_status
 }
 
 /// Install (or clear) the scripted `run_pipeline`: planned command text -> stdout.
@@ -118,7 +130,14 @@ pub fn plan_key(cl: &CommandLine) -> String {
 /// Called in `core::run_pipeline` once the calculator / function / empty-line cases are
 /// decided, right before any pipe or process is created. `None` = no script installed.
 pub fn scripted_run_pipeline(_sh: &mut Shell, cl: &CommandLine, _capture: bool) -> Option<(bool, CommandResult)> {
+    if cl.is_single_and_builtin() {
+        // a single builtin runs in the shell process itself: let the real code do it
+        return None;
+    }
     let key = plan_key(cl);
+    let mut envs: Vec<(String, String)> = cl.envs.iter().map(|(k, v)| (k.clone(), v.clone())).collect();
+    envs.sort();
+    PIPE_ENVS.with(|t| t.borrow_mut().push(envs));
     let out = PIPE_SCRIPT.with(|s| s.borrow().as_ref().map(|m| m.get(&key).cloned().unwrap_or_default()))?;
     PIPE_LOG.with(|t| t.borrow_mut().push(key));
     let mut cr = CommandResult::new();
